@@ -394,6 +394,109 @@ pub fn exec_step(w: &mut World, ctx: &mut Ctx, st: &Step) -> StepResult {
             check_immutable(w, ctx, &[d, p], "add_nonempty_string_assertion");
             push_doc(w, ctx, env, if ind { Some(m) } else { None }, "AddText")
         }
+        "NodeInNode" => {
+            // the public route to an envelope whose subject is itself an envelope with assertions: compress the whole,
+            // add an assertion to the compressed element, uncompress the subject again
+            let (d, p, o) = (doc!(a0), doc!(a1), doc!(a2));
+            let (de, pe, oe) = (w.docs[d].env.clone(), w.docs[p].env.clone(), w.docs[o].env.clone());
+            let r = lib!("compress / add_assertion / uncompress_subject", de.compress().and_then(|c| c.add_assertion(pe, oe).uncompress_subject()).map_err(|e| e.to_string()));
+            let ind = w.docs[d].independent && w.docs[p].independent && w.docs[o].independent;
+            check_immutable(w, ctx, &[d, p, o], "compress / add_assertion / uncompress_subject");
+            match r {
+                Ok(env) => {
+                    let m = M::node(w.docs[d].m.clone(), vec![M::assertion(w.docs[p].m.clone(), w.docs[o].m.clone())]);
+                    if w.docs[d].m.is_node() {
+                        ctx.probe("node-subject-node");
+                    }
+                    push_doc(w, ctx, env, if ind && w.docs[d].m.obsc().is_clear() { Some(m) } else { None }, "NodeInNode")
+                }
+                Err(_) => StepResult::Refused,
+            }
+        }
+        "TypedElement" => {
+            // an obscured element handed over as a typed value (what another program using bc-components would pass):
+            // a Compressed or EncryptedMessage with, without, or with an unreadable declared digest. Whatever
+            // Envelope::try_from accepts must be a well-formed envelope that its own decoder accepts again.
+            let d = doc!(a0);
+            let payload = w.docs[d].env.tagged_cbor().to_cbor_data();
+            let dg = bc_components::Digest::from_data(digest_of(&w.docs[d].env));
+            let made: Result<Envelope, String> = lib!("Envelope::try_from(typed element)", match a1 % 5 {
+                0 => Envelope::try_from(bc_components::Compressed::from_uncompressed_data(payload.clone(), Some(dg.clone()))).map_err(|e| e.to_string()),
+                1 => Envelope::try_from(bc_components::Compressed::from_uncompressed_data(payload.clone(), None)).map_err(|e| e.to_string()),
+                2 => Envelope::try_from(sym_key(1).encrypt_with_digest(payload.clone(), &dg, None::<bc_components::Nonce>)).map_err(|e| e.to_string()),
+                3 => Envelope::try_from(sym_key(1).encrypt(payload.clone(), None::<Vec<u8>>, None::<bc_components::Nonce>)).map_err(|e| e.to_string()),
+                _ => Envelope::try_from(sym_key(1).encrypt(payload.clone(), Some(vec![0x58u8, 0x20, 1, 2, 3]), None::<bc_components::Nonce>)).map_err(|e| e.to_string()),
+            });
+            match made {
+                Ok(env) => {
+                    if ctx.armed("C04") {
+                        ctx.checked();
+                        ctx.probe("typed-element-accepted");
+                        let ok = guarded(|| {
+                            wellformed_by_case(&env, "")?;
+                            let bytes = env.to_cbor_data();
+                            Envelope::try_from_cbor_data(bytes).map(|_| ()).map_err(|e| format!("its own encoding is rejected by the decoder: {}", e))
+                        });
+                        match ok {
+                            Ok(Ok(())) => {}
+                            Ok(Err(x)) => ctx.violate("C04.typed-element", format!("Envelope::try_from accepted a typed element (case {}) that is not a well-formed envelope: {}", a1 % 5, x)),
+                            Err(p) => ctx.violate_sig("C04.typed-element", format!("Envelope::try_from accepted a typed element (case {}) whose structure cannot even be inspected: {}", a1 % 5, p), p),
+                        }
+                    }
+                    if a1 % 5 == 0 || a1 % 5 == 2 {
+                        let m = w.docs[d].m.with_obsc(if a1 % 5 == 0 { Obsc::Compressed } else { Obsc::Encrypted(1) });
+                        let ind = w.docs[d].independent;
+                        push_doc(w, ctx, env, if ind && w.docs[d].m.obsc().is_clear() { Some(m) } else { None }, "TypedElement")
+                    } else {
+                        StepResult::Refused
+                    }
+                }
+                Err(_) => {
+                    ctx.probe("typed-element-refused");
+                    StepResult::Refused
+                }
+            }
+        }
+        "AddMany" => {
+            // many assertions on one subject (8..20), added one by one in an order drawn from the step's argument
+            let d = doc!(a0);
+            let n = 8 + (a1 % 13) as usize;
+            let mut order: Vec<usize> = (0..n).collect();
+            SimRng::new(a3).shuffle(&mut order);
+            let mut env = w.docs[d].env.clone();
+            let mut m = w.docs[d].m.clone();
+            for i in order {
+                let (pcv, ocv) = (CV::U(1000 + i as u64), if i % 3 == 0 { CV::U(gen::BOUNDARY_U[i % gen::BOUNDARY_U.len()]) } else { CV::text(&format!("value {}", i)) });
+                let (pe, oe) = (make_leaf_env(&pcv, 1), make_leaf_env(&ocv, 1));
+                env = lib!("add_assertion", env.add_assertion(pe, oe));
+                m = m.add_assertion_m(&M::assertion(M::leaf(pcv), M::leaf(ocv)));
+            }
+            ctx.probe("eight-or-more-assertions");
+            let ind = w.docs[d].independent;
+            check_immutable(w, ctx, &[d], "add_assertion (many)");
+            push_doc(w, ctx, env, if ind { Some(m) } else { None }, "AddMany")
+        }
+        "Deepen" => {
+            // nesting five to ten levels deep: alternately wrapped and placed as the object of a fresh subject
+            let d = doc!(a0);
+            let k = 5 + (a1 % 6) as usize;
+            let mut env = w.docs[d].env.clone();
+            let mut m = w.docs[d].m.clone();
+            for lvl in 0..k {
+                if (a3 >> lvl) & 1 == 0 {
+                    env = lib!("wrap_envelope", env.wrap_envelope());
+                    m = M::wrapped(m);
+                } else {
+                    let (scv, pcv) = (CV::text(&format!("level {}", lvl)), CV::text("holds"));
+                    env = lib!("add_assertion", make_leaf_env(&scv, 1).add_assertion(make_leaf_env(&pcv, 1), env.clone()));
+                    m = M::node(M::leaf(scv), vec![M::assertion(M::leaf(pcv), m)]);
+                }
+            }
+            ctx.probe("nested-five-or-more-levels");
+            let ind = w.docs[d].independent;
+            check_immutable(w, ctx, &[d], "deepen");
+            push_doc(w, ctx, env, if ind { Some(m) } else { None }, "Deepen")
+        }
         "AddBatch" => {
             // several assertions handed over in one call; the model adds them one by one
             let d = doc!(a0);
@@ -657,6 +760,43 @@ pub fn exec_step(w: &mut World, ctx: &mut Ctx, st: &Step) -> StepResult {
                     ctx.violate("C03.pattern", format!("{}: visibility pattern differs from the rule: {}", what, e));
                 }
             }
+            if ctx.armed("C04") && ind && !revealing {
+                // an element the library has just encrypted / compressed in place carries a digest: opened again (the
+                // simulator holds the key), its content must be the element that stood there
+                if matches!(action, Obsc::Encrypted(_) | Obsc::Compressed) {
+                    let was_clear: BTreeSet<D> = w.docs[d].m.positions().iter().filter(|p| p.obsc().is_clear() && targets.contains(&p.digest())).map(|p| p.digest()).collect();
+                    let mut seen: BTreeSet<D> = BTreeSet::new();
+                    let found: std::cell::RefCell<Vec<Envelope>> = std::cell::RefCell::new(vec![]);
+                    let visitor = |e: Envelope, _l: usize, _t: EdgeType, _p: Option<&()>| -> Option<&()> {
+                        found.borrow_mut().push(e);
+                        None
+                    };
+                    env.walk(false, &visitor);
+                    for el in found.into_inner() {
+                        let dg = digest_of(&el);
+                        if !was_clear.contains(&dg) || !seen.insert(dg) {
+                            continue;
+                        }
+                        let opened = match action {
+                            Obsc::Encrypted(kid) if el.is_encrypted() => {
+                                Some(guarded(|| el.decrypt_subject(&sym_key(kid)).map_err(|e| e.to_string())))
+                            }
+                            Obsc::Compressed if el.is_compressed() => Some(guarded(|| el.uncompress().map_err(|e| e.to_string()))),
+                            _ => None,
+                        };
+                        if let Some(r) = opened {
+                            ctx.checked();
+                            ctx.probe("obscured-in-place-element-reopened");
+                            match r {
+                                Ok(Ok(x)) if digest_of(&x) == dg => {}
+                                Ok(Ok(_)) => ctx.violate("C04.obscured-content", format!("{}: the element put in place of {} opens to content with another digest", what, dhex(&dg))),
+                                Ok(Err(e)) => ctx.violate("C04.obscured-content", format!("{}: the element put in place of {} declares that digest but cannot be opened again: {}", what, dhex(&dg), e)),
+                                Err(p) => ctx.violate_sig("C16.no-panic", format!("re-opening an element obscured in place panicked: {}", p), p),
+                            }
+                        }
+                    }
+                }
+            }
             check_immutable(w, ctx, &[d], "elide");
             push_doc(w, ctx, env, if ind { Some(m) } else { None }, "ElideSet")
         }
@@ -866,11 +1006,32 @@ pub fn exec_step(w: &mut World, ctx: &mut Ctx, st: &Step) -> StepResult {
             }
         }
         "Roundtrip" => {
-            // a0 doc, a1 form: 0 cbor data, 1 UR string, 2 tagged CBOR value
+            // a0 doc, a1 form: 0 cbor data, 1 UR string, 2 tagged CBOR value, 3..7 the other conversion paths
             let d = doc!(a0);
-            let form = a1 % 3;
+            let form = a1 % 8;
             let bytes = w.docs[d].bytes.clone();
             let r: Result<Envelope, String> = match form {
+                // the other transport forms: UR value, CBOR value through the conversion traits, tagged and untagged data
+                3 => {
+                    let ur = lib!("ur", w.docs[d].env.ur());
+                    lib!("from_ur", Envelope::from_ur(&ur).map_err(|e| e.to_string()))
+                }
+                4 => {
+                    let c: CBOR = lib!("CBOR::from(envelope)", CBOR::from(w.docs[d].env.clone()));
+                    lib!("Envelope::try_from(CBOR)", Envelope::try_from(c).map_err(|e| e.to_string()))
+                }
+                5 => {
+                    let data = lib!("tagged_cbor_data", w.docs[d].env.tagged_cbor().to_cbor_data());
+                    lib!("from_tagged_cbor_data", Envelope::from_tagged_cbor_data(data).map_err(|e| e.to_string()))
+                }
+                6 => {
+                    let c = lib!("untagged_cbor", w.docs[d].env.untagged_cbor());
+                    lib!("from_untagged_cbor", Envelope::from_untagged_cbor(c).map_err(|e| e.to_string()))
+                }
+                7 => {
+                    let c = lib!("to_cbor", w.docs[d].env.to_cbor());
+                    lib!("from_tagged_cbor", Envelope::from_tagged_cbor(c).map_err(|e| e.to_string()))
+                }
                 0 => lib!("try_from_cbor_data", Envelope::try_from_cbor_data(bytes.clone()).map_err(|e| e.to_string())),
                 1 => {
                     let ur = lib!("ur_string", w.docs[d].env.ur_string());
@@ -1009,6 +1170,16 @@ pub fn generate(property: &str, r: &mut SimRng, seed: u64) -> Scenario {
         }
         if on(r, 2, 3) {
             w.push(("Decorate", 2));
+        }
+        if on(r, 1, 4) {
+            w.push(("AddMany", 1));
+            w.push(("Deepen", 1));
+        }
+        if on(r, 1, 3) {
+            w.push(("NodeInNode", 2));
+        }
+        if on(r, 1, 4) {
+            w.push(("TypedElement", 1));
         }
         if on(r, 2, 3) {
             w.push(("Replace", 2));
